@@ -127,6 +127,14 @@ class Run:
         if l[0] == 'var' and l[1] in self.boxed:
             sub.boxed[p_['id']] = self.boxslot(l[1])
             return True
+        if l[0] == 'var' and not T(g, pt.get('to')).get('const') and not isinstance(self.vars.get(l[1]), tuple):
+            # a local scalar handed to a non-const reference parameter (an out-parameter): the variable moves into a cell both
+            # functions see; it may still be unset
+            name = ('V', l[1], id(self))
+            self.bufs[name] = [self.vars.get(l[1], UNINIT)]
+            self.boxed[l[1]] = name
+            sub.boxed[p_['id']] = self.boxslot(l[1])
+            return True
         return False
 
     def tick(self):
